@@ -17,7 +17,7 @@ From C09 Require Import Generated Model.
 Import ListNotations.
 Open Scope Z_scope.
 
-Definition the_flags : flags := mkFlags kglambda_args_positional setitem_wraps_existing.
+Definition the_flags : flags := mkFlags kglambda_args_positional setitem_wraps_existing eval_fn_pops_in_finally.
 
 Fixpoint val_of_sx (fuel : nat) (x : sx) : option val :=
   match fuel with O => None | S n =>
@@ -34,6 +34,7 @@ Fixpoint val_of_sx (fuel : nat) (x : sx) : option val :=
       if is_tag "pyres" t then match rest with SZ p :: r => option_map (VPyRes p) (go r) | _ => None end else
       if is_tag "kres" t then match rest with SZ p :: r => option_map (VKRes p) (go r) | _ => None end else
       if is_tag "pyobj" t then match rest with [SZ p] => Some (VPyObj p) | _ => None end else
+      if is_tag "sym" t then match rest with [SZ p] => Some (VSym p) | _ => None end else
       if is_tag "klong" t then Some VKlong else None
   | _ => None
   end end.
@@ -57,12 +58,19 @@ Fixpoint pnames_of_sx (l : list sx) : option (list pname) :=
   | a :: r => match pname_of_sx a, pnames_of_sx r with Some p, Some ps => Some (p :: ps) | _, _ => None end
   end.
 
+(* raising oracle of an instrumented callable: never, or when one received argument is the integer z *)
+Definition never : list val -> bool := fun _ => false.
+Definition boom_on (z : Z) : list val -> bool :=
+  existsb (fun v => match v with VInt y => Z.eqb y z | _ => false end).
+
 Definition entry_of_sx (x : sx) : option entry :=
   match x with
+  | SL [SS t; SZ p; SL ps; SZ z] =>
+      if is_tag "py" t then option_map (fun l => EPy (mkPyc p l (boom_on z))) (pnames_of_sx ps) else None
   | SL [SS t; a] => if is_tag "data" t then option_map EData (val_of_sx 1000 a) else None
   | SL [SS t; SZ p; SL ps] =>
-      if is_tag "py" t then option_map (fun l => EPy (mkPyc p l)) (pnames_of_sx ps) else
-      if is_tag "raw" t then option_map (fun l => ERaw (mkPyc p l)) (pnames_of_sx ps) else None
+      if is_tag "py" t then option_map (fun l => EPy (mkPyc p l never)) (pnames_of_sx ps) else
+      if is_tag "raw" t then option_map (fun l => ERaw (mkPyc p l never)) (pnames_of_sx ps) else None
   | SL [SS t; SZ k; SZ a] => if is_tag "kfn" t then Some (EKfn (mkKfn k (Z.to_nat a))) else None
   | _ => None
   end.
@@ -70,7 +78,7 @@ Definition entry_of_sx (x : sx) : option entry :=
 Definition pyval_of_sx (x : sx) : option pyval :=
   match x with
   | SL [SS t; a] => if is_tag "data" t then option_map PData (val_of_sx 1000 a) else None
-  | SL [SS t; SZ p; SL ps] => if is_tag "call" t then option_map (fun l => PCall (mkPyc p l)) (pnames_of_sx ps) else None
+  | SL [SS t; SZ p; SL ps] => if is_tag "call" t then option_map (fun l => PCall (mkPyc p l never)) (pnames_of_sx ps) else None
   | SL [SS t; SZ k; SZ a] => if is_tag "kfn" t then Some (PKfn (mkKfn k (Z.to_nat a))) else None
   | _ => None
   end.
@@ -136,6 +144,7 @@ Fixpoint sx_of_val (v : val) : sx :=
   | VKRes p a => SL (sx_w "kres" :: SZ p :: map sx_of_val a)
   | VPyObj p => SL [sx_w "pyobj"; SZ p]
   | VKlong => SL [sx_w "klong"]
+  | VSym p => SL [sx_w "sym"; SZ p]
   end.
 
 Definition sx_of_res (r : res) : sx :=
@@ -189,6 +198,7 @@ Definition hist_step (st : state) (x : sx) : option (state * sx) :=
         | Some c => Some (mkState c (log st), SL [sx_w "done"])
         | None => Some (st, SL [sx_w "keyerror"])
         end
+      else if is_tag "pop" t then Some (mkState (tl (scx st)) (log st), SL [sx_w "done"])
       else if is_tag "read" t then Some (st, SL [sx_w "rb"; sx_of_readback (read_name st n)])
       else if is_tag "apply" t then option_map (fun a => out_res st (apply_name the_flags st n a)) (vals_of_sx rest)
       else if is_tag "rbcall" t then option_map (fun a => out_res st (call_readback the_flags st (read_name st n) a)) (vals_of_sx rest)
@@ -252,7 +262,7 @@ Definition dispatch (x : sx) : sx :=
             | Some c, Some fm =>
                 let st := mkState c [] in
                 let '(st', r) := run_form the_flags st n fm in
-                SL [sx_w "ok"; sx_of_res r; sx_of_log (log st')]
+                SL [sx_w "ok"; sx_of_res r; sx_of_log (log st'); SL [sx_w "depth"; sx_nat (List.length (scx st') - List.length c)]]
             | _, _ => sx_err "form"
             end
         | _ => sx_err "form"
@@ -287,6 +297,19 @@ Definition dispatch (x : sx) : sx :=
             | None => sx_err "sig"
             end
         | _ => sx_err "import"
+        end
+      else if is_tag "scoped" t then
+        match rest with
+        | SL (SS _ :: frames) :: steps =>
+            match frames_of_sx frames with
+            | Some c =>
+                match hist_run (mkState c []) steps with
+                | Some outs => SL (sx_w "ok" :: outs)
+                | None => sx_err "scoped"
+                end
+            | None => sx_err "scoped"
+            end
+        | _ => sx_err "scoped"
         end
       else if is_tag "hist" t then
         match hist_run (mkState [[]] []) rest with
